@@ -181,7 +181,39 @@ func ruleForwardOnce(c *Ctx, pl *pipeline, rule string, read *ssa.Call, nVal, er
 	}
 	// fresh buffer per iteration
 	if bi, ok := sliceBase(buf).(ssa.Instruction); ok {
-		c.Check(blockInLoop(bi.Block()), rule, "Handle:fresh-buffer", read.Pos(), "a new buffer is allocated for every read", "the read buffer is shared across iterations")
+		// The buffer may be allocated once or per iteration: what leaves the function is the byte value
+		// buf[0] (checked above: the send operand is a load of element 0 of this buffer, and the send
+		// lies between the read and the next read), never the slice itself.  A shared buffer is unsafe
+		// only if the slice escapes (handed to a goroutine, stored, sent): require that it does not.
+		escapes := false
+		var scan func(v ssa.Value, depth int)
+		scan = func(v ssa.Value, depth int) {
+			if depth > 4 {
+				return
+			}
+			for _, r := range referrers(v) {
+				switch x := r.(type) {
+				case *ssa.IndexAddr, *ssa.DebugRef:
+				case *ssa.Slice:
+					scan(x, depth+1)
+				case *ssa.Store:
+					if x.Val == v {
+						escapes = true
+					}
+				case *ssa.Send, *ssa.Go, *ssa.Defer, *ssa.MakeClosure, *ssa.MakeInterface, *ssa.Return:
+					escapes = true
+				case ssa.CallInstruction:
+					if ssa.Instruction(x) != ssa.Instruction(read) {
+						if _, isB := x.Common().Value.(*ssa.Builtin); !isB {
+							escapes = true
+						}
+					}
+				}
+			}
+		}
+		scan(bi.(ssa.Value), 0)
+		c.Check(blockInLoop(bi.Block()) || !escapes, rule, "Handle:fresh-buffer", read.Pos(), "the read buffer is private to the loop (allocated per read, or shared but never handed on as a slice)",
+			"the read buffer is shared across iterations and handed on as a slice: a later read can overwrite bytes not yet consumed")
 	}
 }
 
